@@ -99,6 +99,42 @@ Fixpoint index_of (x : N) (l : list N) : option nat :=
                else match index_of x l' with Some n => Some (S n) | None => None end
   end.
 
+(* ---- generic traversals (defined with the function outside the fixpoint so that nested
+   recursion through them is accepted) ---- *)
+Inductive err :=
+| ENoMatch        (* InvalidTypeError: operator cannot be applied / incompatible set constructor *)
+| EAmbiguous      (* QueryError: operator is ambiguous *)
+| ENoFunc         (* QueryError: function "..." does not exist *)
+| ENotUnique      (* QueryError: function ... is not unique *)
+| ECastErr        (* QueryError: cannot cast *)
+| EGeneric        (* QueryError: cannot cast into generic type / indeterminate type *)
+| EArrayType      (* QueryError: could not determine array type / nested arrays *)
+| EDupName        (* QueryError: named tuple has duplicate field *)
+| EIndexErr       (* QueryError: bad indirection *)
+| ETypeError      (* Python TypeError escaping from test_polymorphic / to_nonpolymorphic *)
+| EInternal       (* InternalServerError / SchemaError *)
+| ENoName         (* unknown operator / function / scalar name *)
+| ENestedArr      (* UnsupportedFeatureError: nested arrays are not supported (Array.from_subtypes) *)
+| EUnsupported.   (* outside the modelled fragment: the model abstains *)
+
+Inductive res (A : Type) := Ok (a : A) | Err (e : err).
+Arguments Ok {A} a.
+Arguments Err {A} e.
+
+Definition bind {A B} (r : res A) (f : A -> res B) : res B :=
+  match r with Ok a => f a | Err e => Err e end.
+Notation "x <- r ;; k" := (bind r (fun x => k)) (at level 61, r at next level, right associativity).
+
+Section MapM.
+Context {A B : Type}.
+Variable f : A -> res B.
+Fixpoint mapM (l : list A) : res (list B) :=
+  match l with
+  | [] => Ok []
+  | x :: l' => y <- f x ;; r <- mapM l' ;; Ok (y :: r)
+  end.
+End MapM.
+
 Section WithSig.
 Variable sg : sig.
 
@@ -391,29 +427,6 @@ Fixpoint find_common (a b : ty) {struct a} : option ty :=
 
 (* ---- polymorphism ---- *)
 
-Inductive err :=
-| ENoMatch        (* InvalidTypeError: operator cannot be applied / incompatible set constructor *)
-| EAmbiguous      (* QueryError: operator is ambiguous *)
-| ENoFunc         (* QueryError: function "..." does not exist *)
-| ENotUnique      (* QueryError: function ... is not unique *)
-| ECastErr        (* QueryError: cannot cast *)
-| EGeneric        (* QueryError: cannot cast into generic type / indeterminate type *)
-| EArrayType      (* QueryError: could not determine array type / nested arrays *)
-| EDupName        (* QueryError: named tuple has duplicate field *)
-| EIndexErr       (* QueryError: bad indirection *)
-| ETypeError      (* Python TypeError escaping from test_polymorphic / to_nonpolymorphic *)
-| EInternal       (* InternalServerError / SchemaError *)
-| ENoName         (* unknown operator / function / scalar name *)
-| EUnsupported.   (* outside the modelled fragment: the model abstains *)
-
-Inductive res (A : Type) := Ok (a : A) | Err (e : err).
-Arguments Ok {A} a.
-Arguments Err {A} e.
-
-Definition bind {A B} (r : res A) (f : A -> res B) : res B :=
-  match r with Ok a => f a | Err e => Err e end.
-Notation "x <- r ;; k" := (bind r (fun x => k)) (at level 61, r at next level, right associativity).
-
 (* test_polymorphic(self=a, poly): raises TypeError when poly is not polymorphic *)
 Fixpoint test_poly (a poly : ty) {struct a} : res bool :=
   if negb (is_poly poly) then Err ETypeError
@@ -482,7 +495,7 @@ Fixpoint to_nonpoly (t c : ty) {struct t} : res ty :=
   | TAny | TAnyTuple | TAnyObject => Ok c
   | TArr x => match x with
               | TRng _ | TMRng _ => match to_nonpoly x c with Ok y => Ok (TArr y) | Err e => Err e end
-              | _ => Ok (TArr c)
+              | _ => if is_array c then Err ENestedArr else Ok (TArr c)   (* Array.from_subtypes *)
               end
   | TRng _ => Ok (TRng c)
   | TMRng _ => Ok (TMRng c)
@@ -941,27 +954,6 @@ Fixpoint cast_ok (fuel : nat) (explicit : bool) (d : argd) (b : ty) {struct fuel
 
 Definition cast_fuel2 : nat := 12.
 
-(* func.finalize_args: arguments whose type is not compatible with the (resolved) parameter
-   type are cast to it (compile_cast with span=None) *)
-Fixpoint finalize (argds : list argd) (kwds : list (N * argd)) (bargs : list barg) : res unit :=
-  match bargs with
-  | [] => Ok tt
-  | b :: bargs' =>
-      let target := if ba_variadic b then arr_elem (ba_pty b) else ba_pty b in
-      _ <- (if compat target (ba_vty b) then Ok tt
-            else
-              let d := match ba_arg b, ba_kw b with
-                       | Some i, _ => nth i argds (mk_argd (ba_vty b) false false)
-                       | None, Some k => match assoc k kwds with
-                                         | Some d => d | None => mk_argd (ba_vty b) false false end
-                       | None, None => mk_argd (ba_vty b) false false
-                       end in
-              cast_ok cast_fuel2 false d target) ;;
-      finalize argds kwds bargs'
-  end.
-
-(* ---- func.compile_operator ---- *)
-
 Definition all_params (pred : ty -> bool) (f : callable) : bool :=
   forallb (fun p => pred (p_ty p)) (cl_params f).
 
@@ -1014,9 +1006,236 @@ Definition union_type (l r : ty) : ty :=
   | os => TUnion os
   end.
 
-Definition compile_operator (nm : N) (argds : list argd) : res ty :=
-  let args := map ad_ty argds in
+(* ---- expressions ---- *)
+
+Inductive expr : Type :=
+| ELit (s : N)                          (* constant of a concrete scalar type *)
+| EEmpty                                (* {} *)
+| ECast (t : ty) (e : expr)             (* <t>e *)
+| ETuple (named : bool) (els : list (N * expr))
+| EArray (es : list expr)
+| ESet (es : list expr)                 (* { e1, ..., en } *)
+| EOp (op : N) (args : list expr)       (* prefix / infix / ternary operator; IF is [then; cond; else] *)
+| ECall (f : N) (args : list expr) (kw : list (N * expr))
+| ETupIdx (e : expr) (n : N)            (* e.n *)
+| EIndex (e : expr) (i : expr)          (* e[i] *)
+| EObj (o : N).                         (* the set of all objects of a type *)
+
+(* expr.flatten_set *)
+Fixpoint flat1 (e : expr) : list expr :=
+  match e with
+  | ESet es => (fix go (l : list expr) : list expr :=
+                  match l with [] => [] | x :: l' => flat1 x ++ go l' end) es
+  | EEmpty => []          (* `{}` is a qlast.Set without elements *)
+  | _ => [e]
+  end.
+Definition flatten_set (es : list expr) : list expr := flat_map flat1 es.
+
+(* the IR of the expression is an EmptySet: `{}`, a set literal that flattens to nothing, or a
+   cast of one (compile_cast returns a new EmptySet of the target type) *)
+Fixpoint is_empty_expr (e : expr) : bool :=
+  match e with
+  | EEmpty => true
+  | ESet es => match flatten_set es with [] => true | _ => false end
+  | ECast _ e1 => is_empty_expr e1
+  | _ => false
+  end.
+Definition is_empty_arr_expr (e : expr) : bool := match e with EArray [] => true | _ => false end.
+
+(* typegen.infer_common_type over scalar / collection element types *)
+Definition kind3 (t : ty) : nat :=
+  if is_collection t then 0 else if is_scalar t then 1 else 2.
+
+Fixpoint fold_common (acc : ty) (l : list ty) : option ty :=
+  match l with
+  | [] => Some acc
+  | t :: l' => match find_common acc t with Some c => fold_common c l' | None => None end
+  end.
+
+Definition infer_common_type (ts : list ty) : res ty :=
+  match ts with
+  | [] => Err EArrayType
+  | t0 :: rest =>
+      if negb (forallb (fun t => Nat.eqb (kind3 t) (kind3 t0)) rest) then Err EArrayType
+      else if Nat.eqb (kind3 t0) 2 then
+        match t0 with
+        | TObj _ =>
+            (* nearest common ancestor of all object types, first one *)
+            match fold_left (fun acc t => match acc, t with
+                                          | Some (TObj a), TObj b =>
+                                              match nearest_common ob_ancestors a b with
+                                              | x :: _ => Some (TObj x) | [] => None end
+                                          | _, _ => None end) rest (Some t0) with
+            | Some t => Ok t | None => Err EArrayType end
+        | _ => Err EUnsupported
+        end
+      else match fold_common t0 rest with Some t => Ok t | None => Err EArrayType end
+  end.
+
+Fixpoint has_dup (l : list N) : bool :=
+  match l with [] => false | x :: l' => memN x l' || has_dup l' end.
+
+
+(* ------------------------------------------------------------------ values *)
+
+(* dynamic values: every scalar value carries the (concrete) scalar type it belongs to *)
+Inductive value : Type :=
+| VS (s : N) (payload : Z)
+| VTup (named : bool) (els : list (N * value))
+| VArr (vs : list value)
+| VRng (bounds : list value)           (* the bounds that are present *)
+| VMRng (ranges : list value)
+| VObj (o : N) (id : N).               (* an object and its (dynamic) object type *)
+
+(* "v belongs to type t" (subtype semantics: a value of a scalar / object type belongs to every
+   ancestor type; anytype is the top) *)
+Fixpoint has_type (v : value) (t : ty) {struct v} : bool :=
+  match t with
+  | TAny => true
+  | _ =>
+    match v with
+    | VS s _ => match t with TS q => sc_sub s q | _ => false end
+    | VObj o _ => match t with
+                  | TAnyObject => true
+                  | TObj q => ob_sub o q
+                  | TUnion qs => existsb (ob_sub o) qs
+                  | _ => false end
+    | VArr vs => match t with
+                 | TArr e => (fix go (l : list value) : bool :=
+                                match l with [] => true | x :: l' => has_type x e && go l' end) vs
+                 | _ => false end
+    | VRng vs => match t with
+                 | TRng e => (fix go (l : list value) : bool :=
+                                match l with [] => true | x :: l' => has_type x e && go l' end) vs
+                 | _ => false end
+    | VMRng vs => match t with
+                  | TMRng e => (fix go (l : list value) : bool :=
+                                  match l with [] => true | x :: l' => has_type x (TRng e) && go l' end) vs
+                  | _ => false end
+    | VTup n vs =>
+        match t with
+        | TAnyTuple => true
+        | TTup m ts =>
+            Bool.eqb n m &&
+            (fix go (l : list (N * value)) (r : list (N * ty)) {struct l} : bool :=
+               match l, r with
+               | [], [] => true
+               | (i, x) :: l', (j, y) :: r' => N.eqb i j && has_type x y && go l' r'
+               | _, _ => false
+               end) vs ts
+        | _ => false
+        end
+    end
+  end.
+
+(* an argument passed WITHOUT a cast must also agree with the parameter type in tuple
+   arity / naming at every level: is_type_compatible does not check this (zip) *)
+Fixpoint shape_ok (pt vt : ty) {struct pt} : bool :=
+  match pt with
+  | TTup n xs =>
+      match vt with
+      | TTup m ys =>
+          Bool.eqb n m &&
+          (fix go (l : list (N * ty)) (r : list (N * ty)) {struct l} : bool :=
+             match l, r with
+             | [], [] => true
+             | (i, x) :: l', (j, y) :: r' => N.eqb i j && shape_ok x y && go l' r'
+             | _, _ => false
+             end) xs ys
+      | _ => true
+      end
+  | TArr x => match vt with TArr y => shape_ok x y | _ => true end
+  | TRng x => match vt with TRng y => shape_ok x y | _ => true end
+  | TMRng x => match vt with TMRng y => shape_ok x y | _ => true end
+  | _ => true
+  end.
+
+(* an argument: static description + the values it evaluates to *)
+Record argv := mk_argv { av_d : argd; av_vs : list value }.
+Definition av_ty (a : argv) : ty := ad_ty (av_d a).
+
+Fixpoint cartesian {A} (ls : list (list A)) : list (list A) :=
+  match ls with
+  | [] => [[]]
+  | l :: ls' => flat_map (fun x => map (fun r => x :: r) (cartesian ls')) l
+  end.
+
+Definition truthy (v : value) : bool := match v with VS _ p => negb (Z.eqb p 0) | _ => false end.
+
+Section Run.
+Variable s_int64 : N.
+(* the semantic function of a resolved call (overload + instantiation) on the argument value
+   sets after the implicit argument casts; the SQL bodies of the std library are not modelled *)
+Variable prim : bcall -> list (list value) -> list value.
+(* casting one value from a type to a type (may fail: no result) *)
+Variable castv : ty -> ty -> value -> list value.
+(* str / bytes / json indexing *)
+Variable idxp : ty -> value -> value -> list value.
+(* database instance: the objects of (exactly) a given object type and of its descendants *)
+Variable db : N -> list value.
+
+(* func.finalize_args: arguments whose type is not compatible with the (resolved) parameter
+   type are cast to it (compile_cast with span=None).  Returns the "clean" flag (every argument
+   passed without a cast has the statically known argument type and the parameter's tuple
+   shape) and the argument value sets after the casts. *)
+Definition barg_target (b : barg) : ty := if ba_variadic b then arr_elem (ba_pty b) else ba_pty b.
+
+Definition lookup_arg (args : list argv) (kws : list (N * argv)) (b : barg) : argv :=
+  let dflt := mk_argv (mk_argd (ba_vty b) false false) [] in
+  match ba_arg b, ba_kw b with
+  | Some i, _ => nth i args dflt
+  | None, Some k => match assoc k kws with Some a => a | None => dflt end
+  | None, None => dflt
+  end.
+
+Fixpoint finalize (args : list argv) (kws : list (N * argv)) (bargs : list barg)
+  : res (bool * list (list value)) :=
+  match bargs with
+  | [] => Ok (true, [])
+  | b :: bargs' =>
+      let target := barg_target b in
+      let a := lookup_arg args kws b in
+      r <- (if compat target (ba_vty b)
+            then Ok (ty_eqb (ba_vty b) (av_ty a) && shape_ok target (ba_vty b), av_vs a)
+            else (_ <- cast_ok cast_fuel2 false (av_d a) target ;;
+                  Ok (true, flat_map (castv (ba_vty b) target) (av_vs a)))) ;;
+      rest <- finalize args kws bargs' ;;
+      Ok (fst r && fst rest, snd r :: snd rest)
+  end.
+
+(* concrete semantics of the set operators; everything else is [prim] *)
+Definition sem_setlike (nm : N) (vals : list (list value)) : option (list value) :=
+  if N.eqb nm (sg_union sg) then match vals with [l; r] => Some (l ++ r) | _ => None end
+  else if N.eqb nm (sg_coalesce sg) then
+    match vals with [l; r] => Some (match l with [] => r | _ => l end) | _ => None end
+  else if N.eqb nm (sg_if sg) then
+    match vals with
+    | [t; c; f] => Some (flat_map (fun b => if truthy b then t else f) c)
+    | _ => None end
+  else None.
+
+(* which argument positions flow into the result of a set operator *)
+Definition setlike_flow (nm : N) (bargs : list barg) : list barg :=
+  if N.eqb nm (sg_if sg) then match bargs with [t; _; f] => [t; f] | _ => bargs end else bargs.
+
+Definition apply_bcall (bc : bcall) (args : list argv) (kws : list (N * argv))
+  : res (ty * bool * list value) :=
+  r <- finalize args kws (bc_args bc) ;;
+  let '(clean, vals) := r in
+  let nm := cl_name (bc_f bc) in
+  let concrete :=
+    if cl_isop (bc_f bc) && is_set_like_op nm
+       && forallb (fun b => ty_eqb (barg_target b) (bc_ret bc)) (setlike_flow nm (bc_args bc))
+    then sem_setlike nm vals else None in
+  Ok (bc_ret bc, clean, match concrete with Some vs => vs | None => prim bc vals end).
+
+(* ---- func.compile_operator ---- *)
+Definition is_union (t : ty) := match t with TUnion _ => true | _ => false end.
+
+Definition compile_operator (nm : N) (argvs : list argv) : res (ty * bool * list value) :=
+  let args := map av_ty argvs in
   let opers0 := callables_named nm true in
+  if existsb is_union args then Err EUnsupported else     (* union-typed operands: not modelled *)
   match opers0 with
   | [] => Err ENoName
   | first :: _ =>
@@ -1056,113 +1275,61 @@ Definition compile_operator (nm : N) (argds : list argd) : res ty :=
     match matched with
     | [] => Err ENoMatch
     | [c] =>
-        _ <- finalize argds [] (bc_args c) ;;
-        let rtype := bc_ret c in
+        r <- apply_bcall c argvs [] ;;
+        let '(rtype, clean, vs) := r in
         if is_set_like_op (cl_name (bc_f c)) && is_object rtype then
+          (* "instead of common parent type, we return a union type" *)
+          (* an operand that is not of an object type can only be an (anytype) empty set *)
+          let ov := fun a : argv => if is_object (av_ty a) then av_vs a else [] in
           match (if N.eqb nm (sg_if sg) then
-                   match args with [l; _; r] => Some (l, r) | _ => None end
-                 else match args with [l; r] => Some (l, r) | _ => None end) with
-          | Some (l, r) => Ok (union_type l r)
+                   match argvs with
+                   | [l; c; r] => Some (l, r, [ov l; av_vs c; ov r]) | _ => None end
+                 else match argvs with [l; r] => Some (l, r, [ov l; ov r]) | _ => None end) with
+          | Some (l, r, vals) =>
+              Ok (union_type (av_ty l) (av_ty r), clean,
+                  match sem_setlike nm vals with Some v => v | None => [] end)
           | None => Err EInternal
           end
-        else Ok rtype
+        else Ok (rtype, clean, vs)
     | _ => Err EAmbiguous
     end
   end.
 
 (* ---- func.compile_FunctionCall ---- *)
-Definition compile_call (nm : N) (argds : list argd) (kwds : list (N * argd)) : res ty :=
+Definition compile_call (nm : N) (argvs : list argv) (kwvs : list (N * argv))
+  : res (ty * bool * list value) :=
+  if existsb is_union (map av_ty argvs) || existsb (fun kv => is_union (av_ty (snd kv))) kwvs
+  then Err EUnsupported else
   match callables_named nm false with
   | [] => Err ENoName
   | funcs =>
-      m <- find_callable funcs (map ad_ty argds) (map (fun kv => (fst kv, ad_ty (snd kv))) kwds) ;;
+      m <- find_callable funcs (map av_ty argvs) (map (fun kv => (fst kv, av_ty (snd kv))) kwvs) ;;
       match m with
       | [] => Err ENoFunc
-      | [c] => _ <- finalize argds kwds (bc_args c) ;; Ok (bc_ret c)
+      | [c] => apply_bcall c argvs kwvs
       | _ => Err ENotUnique
       end
   end.
 
-(* ---- expressions ---- *)
-
-Inductive expr : Type :=
-| ELit (s : N)                          (* constant of a concrete scalar type *)
-| EEmpty                                (* {} *)
-| ECast (t : ty) (e : expr)             (* <t>e *)
-| ETuple (named : bool) (els : list (N * expr))
-| EArray (es : list expr)
-| ESet (es : list expr)                 (* { e1, ..., en } *)
-| EOp (op : N) (args : list expr)       (* prefix / infix / ternary operator; IF is [then; cond; else] *)
-| ECall (f : N) (args : list expr) (kw : list (N * expr))
-| ETupIdx (e : expr) (n : N)            (* e.n *)
-| EIndex (e : expr) (i : expr)          (* e[i] *)
-| EObj (o : N).                         (* the set of all objects of a type *)
-
-(* expr.flatten_set *)
-Fixpoint flat1 (e : expr) : list expr :=
-  match e with
-  | ESet es => (fix go (l : list expr) : list expr :=
-                  match l with [] => [] | x :: l' => flat1 x ++ go l' end) es
-  | _ => [e]
-  end.
-Definition flatten_set (es : list expr) : list expr := flat_map flat1 es.
-
-Definition is_empty_expr (e : expr) : bool :=
-  match e with EEmpty => true | ESet es => match flatten_set es with [] => true | _ => false end | _ => false end.
-Definition is_empty_arr_expr (e : expr) : bool := match e with EArray [] => true | _ => false end.
-
-(* expr._balance over argument descriptors: UNION(balance(ls), balance(rs)), mid = len // 2 *)
-Fixpoint balance (fuel : nat) (l : list argd) : res argd :=
+(* expr._balance over compiled elements: UNION(balance(ls), balance(rs)), mid = len // 2.
+   Elements are results: an error in an operand of an inner UNION surfaces before later
+   elements are looked at. *)
+Fixpoint balance (fuel : nat) (l : list (res (argv * bool))) : res (argv * bool) :=
   match fuel with
   | O => Err EInternal
   | S fuel' =>
       match l with
       | [] => Err EInternal
-      | [d] => Ok d
+      | [d] => d
       | _ =>
           let mid := Nat.div2 (length l) in
           lt <- balance fuel' (firstn mid l) ;;
           rt <- balance fuel' (skipn mid l) ;;
-          t <- compile_operator (sg_union sg) [lt; rt] ;;
-          Ok (mk_argd t false false)
+          r <- compile_operator (sg_union sg) [fst lt; fst rt] ;;
+          let '(t, clean, vs) := r in
+          Ok (mk_argv (mk_argd t false false) vs, clean && snd lt && snd rt)
       end
   end.
-
-(* typegen.infer_common_type over scalar / collection element types *)
-Definition kind3 (t : ty) : nat :=
-  if is_collection t then 0 else if is_scalar t then 1 else 2.
-
-Fixpoint fold_common (acc : ty) (l : list ty) : option ty :=
-  match l with
-  | [] => Some acc
-  | t :: l' => match find_common acc t with Some c => fold_common c l' | None => None end
-  end.
-
-Definition infer_common_type (ts : list ty) : res ty :=
-  match ts with
-  | [] => Err EArrayType
-  | t0 :: rest =>
-      if negb (forallb (fun t => Nat.eqb (kind3 t) (kind3 t0)) rest) then Err EArrayType
-      else if Nat.eqb (kind3 t0) 2 then
-        match t0 with
-        | TObj _ =>
-            (* nearest common ancestor of all object types, first one *)
-            match fold_left (fun acc t => match acc, t with
-                                          | Some (TObj a), TObj b =>
-                                              match nearest_common ob_ancestors a b with
-                                              | x :: _ => Some (TObj x) | [] => None end
-                                          | _, _ => None end) rest (Some t0) with
-            | Some t => Ok t | None => Err EArrayType end
-        | _ => Err EUnsupported
-        end
-      else match fold_common t0 rest with Some t => Ok t | None => Err EArrayType end
-  end.
-
-Fixpoint has_dup (l : list N) : bool :=
-  match l with [] => false | x :: l' => memN x l' || has_dup l' end.
-
-Section TypeOf.
-Variable s_int64 : N.
 
 Definition infer_index (node idx : ty) : res ty :=
   let str_t := TS (sg_str sg) in
@@ -1179,89 +1346,124 @@ Definition infer_index (node idx : ty) : res ty :=
        | _ => Err EIndexErr
        end.
 
-Fixpoint type_of (e : expr) : res ty :=
+
+Definition mk_av (e : expr) (t : ty) (vs : list value) : argv :=
+  mk_argv (mk_argd t (is_empty_expr e) (is_empty_arr_expr e)) vs.
+
+(* the element values of an array literal are brought to the common element type *)
+Definition coerce (from to : ty) (vs : list value) : list value :=
+  if compat to from && shape_ok to from then vs else flat_map (castv from to) vs.
+
+(* compile one operand / element: the argument descriptor with its values, and its clean flag *)
+Definition as_arg (e : expr) (r : ty * bool * list value) : argv * bool :=
+  let '(t, clean, vs) := r in (mk_av e t vs, clean).
+
+(* the elements of a set literal after expr.flatten_set, each compiled lazily (a result) *)
+Section SetElems.
+Variable f : expr -> res (argv * bool).
+Fixpoint set_elem (x : expr) : list (res (argv * bool)) :=
+  match x with
+  | ESet inner => (fix go (l : list expr) : list (res (argv * bool)) :=
+                     match l with [] => [] | y :: l' => set_elem y ++ go l' end) inner
+  | EEmpty => []
+  | _ => [f x]
+  end.
+End SetElems.
+
+Definition tuple_value (named : bool) (names : list N) (vs : list value) : value :=
+  VTup named (combine names vs).
+
+Definition proj_pos (n : nat) (v : value) : list value :=
+  match v with
+  | VTup _ vs' => match nth_error vs' n with Some (_, w) => [w] | None => [] end
+  | _ => []
+  end.
+Definition proj_name (n : N) (v : value) : list value :=
+  match v with
+  | VTup _ vs' => match assoc n vs' with Some w => [w] | None => [] end
+  | _ => []
+  end.
+Definition index_value (rt : ty) (v iv : value) : list value :=
+  match v, iv with
+  | VArr els, VS _ p =>
+      if (p <? 0)%Z then []
+      else match nth_error els (Z.to_nat p) with Some w => [w] | None => [] end
+  | VArr _, _ => []
+  | _, _ => idxp rt v iv
+  end.
+
+(* one pass: inferred type, "clean" flag, values *)
+Fixpoint run (e : expr) : res (ty * bool * list value) :=
   match e with
-  | ELit s => if sc_is_abstract s then Err ENoName else Ok (TS s)
-  | EEmpty => Ok TAny
-  | EObj o => Ok (TObj o)
+  | ELit s => if sc_is_abstract s then Err ENoName else Ok (TS s, true, [VS s 0])
+  | EEmpty => Ok (TAny, true, [])
+  | EObj o => Ok (TObj o, true, db o)
   | ECast t e1 =>
-      a <- type_of e1 ;;
+      r <- run e1 ;;
+      let '(a, clean, vs) := r in
       _ <- cast_ok cast_fuel2 true (mk_argd a (is_empty_expr e1) (is_empty_arr_expr e1)) t ;;
-      Ok t
+      Ok (t, clean, if ty_eqb a t then vs else flat_map (castv a t) vs)
   | ETuple named els =>
       if named && has_dup (map fst els) then Err EDupName else
-      ts <- (fix go (l : list (N * expr)) : res (list (N * ty)) :=
-               match l with
-               | [] => Ok []
-               | (n, x) :: l' => t <- type_of x ;; r <- go l' ;; Ok ((n, t) :: r)
-               end) els ;;
-      Ok (TTup named ts)
+      rs <- mapM (fun nx => r <- run (snd nx) ;; Ok (fst nx, r)) els ;;
+      Ok (TTup named (map (fun r => (fst r, fst (fst (snd r)))) rs),
+          forallb (fun r => snd (fst (snd r))) rs,
+          map (tuple_value named (map fst rs)) (cartesian (map (fun r => snd (snd r)) rs)))
   | EArray es =>
-      ts <- (fix go (l : list expr) : res (list ty) :=
-               match l with
-               | [] => Ok []
-               | x :: l' => t <- type_of x ;; r <- go l' ;; Ok (t :: r)
-               end) es ;;
+      rs <- mapM run es ;;
+      let ts := map (fun r => fst (fst r)) rs in
+      let clean := forallb (fun r => snd (fst r)) rs in
       if existsb is_array ts then Err EArrayType       (* nested arrays are not supported *)
       else match ts with
-           | [] => Ok (TArr TAny)
-           | _ => t <- infer_common_type ts ;; Ok (TArr t)
+           | [] => Ok (TArr TAny, clean, [VArr []])
+           | _ => t <- infer_common_type ts ;;
+                  Ok (TArr t, clean,
+                      map VArr (cartesian (map (fun r => coerce (fst (fst r)) t (snd r)) rs)))
            end
   | ESet es =>
-      ds <- (fix go (l : list expr) : res (list argd) :=
-               match l with
-               | [] => Ok []
-               | x :: l' =>
-                   a <- (fix elem (x : expr) : res (list argd) :=
-                           match x with
-                           | ESet inner =>
-                               (fix go2 (l : list expr) : res (list argd) :=
-                                  match l with
-                                  | [] => Ok []
-                                  | y :: l' => a <- elem y ;; r <- go2 l' ;; Ok (a ++ r)
-                                  end) inner
-                           | _ => t <- type_of x ;;
-                                  Ok [mk_argd t (is_empty_expr x) (is_empty_arr_expr x)]
-                           end) x ;;
-                   r <- go l' ;; Ok (a ++ r)
-               end) es ;;
+      let ds := flat_map (set_elem (fun x => r <- run x ;; Ok (as_arg x r))) es in
       match ds with
-      | [] => Ok TAny
-      | [d] => Ok (ad_ty d)
-      | _ => r <- balance (S (length ds)) ds ;; Ok (ad_ty r)
+      | [] => Ok (TAny, true, [])
+      | [d] => d' <- d ;; Ok (av_ty (fst d'), snd d', av_vs (fst d'))
+      | _ => r <- balance (S (length ds)) ds ;; Ok (av_ty (fst r), snd r, av_vs (fst r))
       end
   | EOp op args =>
-      ds <- (fix go (l : list expr) : res (list argd) :=
-               match l with
-               | [] => Ok []
-               | x :: l' => t <- type_of x ;; r <- go l' ;;
-                            Ok (mk_argd t (is_empty_expr x) (is_empty_arr_expr x) :: r)
-               end) args ;;
-      compile_operator op ds
+      rs <- mapM (fun x => r <- run x ;; Ok (as_arg x r)) args ;;
+      r <- compile_operator op (map fst rs) ;;
+      let '(t, clean, vs) := r in
+      Ok (t, clean && forallb snd rs, vs)
   | ECall f args kw =>
-      ds <- (fix go (l : list expr) : res (list argd) :=
-               match l with
-               | [] => Ok []
-               | x :: l' => t <- type_of x ;; r <- go l' ;;
-                            Ok (mk_argd t (is_empty_expr x) (is_empty_arr_expr x) :: r)
-               end) args ;;
-      ks <- (fix go (l : list (N * expr)) : res (list (N * argd)) :=
-               match l with
-               | [] => Ok []
-               | (n, x) :: l' => t <- type_of x ;; r <- go l' ;;
-                                 Ok ((n, mk_argd t (is_empty_expr x) (is_empty_arr_expr x)) :: r)
-               end) kw ;;
-      compile_call f ds ks
+      rs <- mapM (fun x => r <- run x ;; Ok (as_arg x r)) args ;;
+      ks <- mapM (fun nx => r <- run (snd nx) ;; Ok (fst nx, as_arg (snd nx) r)) kw ;;
+      r <- compile_call f (map fst rs) (map (fun k => (fst k, fst (snd k))) ks) ;;
+      let '(t, clean, vs) := r in
+      Ok (t, clean && forallb snd rs && forallb (fun k => snd (snd k)) ks, vs)
   | ETupIdx e1 n =>
-      t <- type_of e1 ;;
+      r <- run e1 ;;
+      let '(t, clean, vs) := r in
+      (* Tuple.get_subtype: a decimal field (name ids 0..31 are "0".."31") is a position,
+         otherwise a name of a named tuple *)
       match t with
-      | TTup _ els => match assoc n els with Some x => Ok x | None => Err EIndexErr end
+      | TTup named els =>
+          if (n <? 32)%N then
+            match nth_error els (N.to_nat n) with
+            | Some (_, x) => Ok (x, clean, flat_map (proj_pos (N.to_nat n)) vs)
+            | None => Err EIndexErr end
+          else if named then
+            match assoc n els with
+            | Some x => Ok (x, clean, flat_map (proj_name n) vs)
+            | None => Err EIndexErr end
+          else Err EIndexErr
       | _ => Err EIndexErr
       end
   | EIndex e1 i =>
-      t <- type_of e1 ;;
-      ti <- type_of i ;;
-      infer_index t ti
+      r <- run e1 ;;
+      ri <- run i ;;
+      let '(t, clean, vs) := r in
+      let '(ti, cleani, vis) := ri in
+      rt <- infer_index t ti ;;
+      Ok (rt, clean && cleani,
+          flat_map (fun v => flat_map (index_value rt v) vis) vs)
   end.
 
 (* stmtctx.fini_expression: a statement whose type contains anytype / anyobject is rejected
@@ -1275,10 +1477,26 @@ Fixpoint has_generic (t : ty) : bool :=
   | _ => false
   end.
 
-Definition stmt_type (e : expr) : res ty :=
-  t <- type_of e ;; if has_generic t then Err EGeneric else Ok t.
 
-End TypeOf.
+End Run.
+
+(* the type part does not depend on the value-level parameters (Proofs.run_type_indep);
+   [type_of] instantiates them trivially.  This is the function that is extracted and
+   compared with the real compiler. *)
+Definition type_of_clean (s_int64 : N) (e : expr) : res (ty * bool) :=
+  r <- run s_int64 (fun _ _ => []) (fun _ _ _ => []) (fun _ _ _ => []) (fun _ => []) e ;;
+  Ok (fst r).
+
+Definition type_of (s_int64 : N) (e : expr) : res ty :=
+  r <- type_of_clean s_int64 e ;; Ok (fst r).
+
+(* the type reported for a statement `select e` *)
+Definition stmt_type_clean (s_int64 : N) (e : expr) : res (ty * bool) :=
+  r <- type_of_clean s_int64 e ;; if has_generic (fst r) then Err EGeneric else Ok r.
+
+Definition stmt_type (s_int64 : N) (e : expr) : res ty :=
+  r <- stmt_type_clean s_int64 e ;; Ok (fst r).
+
 End WithSig.
 
 (* user-schema additions appended to the generated std signature by the harness *)
